@@ -688,13 +688,19 @@ func (m *metadataAPI) ReportLeader(ctx context.Context, req *proto.ReportLeaderO
 
 	m.mu.Lock()
 	failover := m.partitionFailovers[partition]
+	if failover != nil && failover.generation != epoch {
+		// The witnesses collected so far reported an earlier leader epoch.
+		failover.cancel()
+		failover = nil
+	}
 	if failover == nil {
 		failover = newPartitionFailoverStatus(
 			partition,
 			m.config.Clustering.ReplicaMaxLeaderTimeout,
-			m.newPartitionFailoverExpiredHandler(partition),
-			m.newPartitionFailoverHandler(partition),
+			m.newPartitionFailoverExpiredHandler(partition, epoch),
+			m.newPartitionFailoverHandler(partition, leader, epoch),
 		)
+		failover.generation = epoch
 		m.partitionFailovers[partition] = failover
 	}
 	m.mu.Unlock()
@@ -702,17 +708,19 @@ func (m *metadataAPI) ReportLeader(ctx context.Context, req *proto.ReportLeaderO
 	return failover.report(ctx, req.Replica)
 }
 
-func (m *metadataAPI) newPartitionFailoverExpiredHandler(p *partition) failoverExpiredHandler {
+func (m *metadataAPI) newPartitionFailoverExpiredHandler(p *partition, epoch uint64) failoverExpiredHandler {
 	return func() {
 		m.mu.Lock()
-		delete(m.partitionFailovers, p)
+		if failover := m.partitionFailovers[p]; failover != nil && failover.generation == epoch {
+			delete(m.partitionFailovers, p)
+		}
 		m.mu.Unlock()
 	}
 }
 
-func (m *metadataAPI) newPartitionFailoverHandler(p *partition) failoverHandler {
+func (m *metadataAPI) newPartitionFailoverHandler(p *partition, leader string, epoch uint64) failoverHandler {
 	return func(ctx context.Context) *status.Status {
-		return m.electNewPartitionLeader(ctx, p)
+		return m.electNewPartitionLeader(ctx, p, leader, epoch)
 	}
 }
 
@@ -1619,7 +1627,9 @@ func (m *metadataAPI) getClusterServerIDs() ([]string, error) {
 // electNewPartitionLeader selects a new leader for the given partition,
 // applies this update to the Raft group, and notifies the replica set. This
 // will fail if the current broker is not the metadata leader.
-func (m *metadataAPI) electNewPartitionLeader(ctx context.Context, partition *partition) *status.Status {
+func (m *metadataAPI) electNewPartitionLeader(ctx context.Context, partition *partition,
+	reportedLeader string, reportedEpoch uint64) *status.Status {
+
 	isr := partition.GetISR()
 	// TODO: add support for "unclean" leader elections.
 	if len(isr) <= 1 {
@@ -1653,8 +1663,24 @@ func (m *metadataAPI) electNewPartitionLeader(ctx context.Context, partition *pa
 		},
 	}
 
+	// The reports which led here named reportedLeader and reportedEpoch. Make
+	// sure, at the point where the change is proposed, that this is still the
+	// leader being replaced and that the selected replica is still in sync.
+	checkPreconditions := func(op *proto.RaftLog) error {
+		if err := m.checkChangeLeaderPreconditions(op); err != nil {
+			return err
+		}
+		if err := checkLeaderEpoch(partition, reportedLeader, reportedEpoch); err != nil {
+			return err
+		}
+		if !partition.inISR(op.ChangeLeaderOp.Leader) {
+			return fmt.Errorf("selected leader %s is no longer in the ISR", op.ChangeLeaderOp.Leader)
+		}
+		return nil
+	}
+
 	// Wait on result of replication.
-	future, err := m.getRaft().applyOperation(ctx, op, m.checkChangeLeaderPreconditions)
+	future, err := m.getRaft().applyOperation(ctx, op, checkPreconditions)
 	if err != nil {
 		return status.Newf(codes.FailedPrecondition, "%s", err.Error())
 	}
@@ -2063,7 +2089,13 @@ func (m *metadataAPI) checkResumeStreamPreconditions(op *proto.RaftLog) error {
 // the partition doesn't exist, it returns ErrPartitionNotFound. Otherwise, it
 // returns nil.
 func (m *metadataAPI) checkShrinkISRPreconditions(op *proto.RaftLog) error {
-	return m.partitionExists(op.ShrinkISROp.Stream, op.ShrinkISROp.Partition)
+	req := op.ShrinkISROp
+	if err := m.partitionExists(req.Stream, req.Partition); err != nil {
+		return err
+	}
+	// The leader epoch is checked again here because this runs while
+	// proposals are serialized and the FSM is up to date.
+	return checkLeaderEpoch(m.GetPartition(req.Stream, req.Partition), req.Leader, req.LeaderEpoch)
 }
 
 // checkExpandISRPreconditions checks if the partition whose ISR is being
@@ -2071,7 +2103,26 @@ func (m *metadataAPI) checkShrinkISRPreconditions(op *proto.RaftLog) error {
 // If the partition doesn't exist, it returns ErrPartitionNotFound. Otherwise,
 // it returns nil.
 func (m *metadataAPI) checkExpandISRPreconditions(op *proto.RaftLog) error {
-	return m.partitionExists(op.ExpandISROp.Stream, op.ExpandISROp.Partition)
+	req := op.ExpandISROp
+	if err := m.partitionExists(req.Stream, req.Partition); err != nil {
+		return err
+	}
+	// See checkShrinkISRPreconditions.
+	return checkLeaderEpoch(m.GetPartition(req.Stream, req.Partition), req.Leader, req.LeaderEpoch)
+}
+
+// checkLeaderEpoch returns an error if the partition's current leader and
+// leader epoch differ from the given ones.
+func checkLeaderEpoch(partition *partition, leader string, epoch uint64) error {
+	if partition == nil {
+		return ErrPartitionNotFound
+	}
+	currentLeader, currentEpoch := partition.GetLeader()
+	if leader != currentLeader || epoch != currentEpoch {
+		return fmt.Errorf("Leader generation mismatch, current leader: %s epoch: %d, got leader: %s epoch: %d",
+			currentLeader, currentEpoch, leader, epoch)
+	}
+	return nil
 }
 
 // checkChangeLeaderPreconditions checks if the partition whose leader is being
